@@ -19,7 +19,7 @@ from . import core
 
 THEOREMS = ["C11_expr", "C11_residual", "C11_total", "C11_total_fixed_table", "C11_total_refuted_ne",
             "C11_loop_range", "C11_three_part_range", "C11_three_part_range_old_reading_refuted",
-            "C11_function_partial", "C11_function_order", "C11_matrix_residual", "C11_square_not_transposed", "C11_example"]
+            "C11_function_partial", "C11_function_order", "C11_function_if_refuted", "C11_matrix_residual", "C11_square_not_transposed", "C11_example"]
 
 GEN_PY = "src/pymoca/backends/casadi/generator.py"
 
